@@ -53,6 +53,9 @@ var vStoreDocs = []vDoc{
 	{Vec: []float32{3, 4}, Text: "gamma alpha", Meta: map[string]interface{}{"s": "x"}},
 }
 
+// vStoreSessionNo: the number (1, 2, ...) of the session the next config() is for.
+var vStoreSessionNo = 1
+
 // config builds a StorageConfig with FRESH template index objects.
 func (c vStoreCfg) config() *StorageConfig {
 	sc := DefaultStorageConfig(vStoreDir)
@@ -74,9 +77,24 @@ func (c vStoreCfg) config() *StorageConfig {
 	case "hnsw":
 		h, _ := NewHNSWIndex(2, Euclidean, 2, 8, 8)
 		sc.VectorIndexTemplate = h
-	case "ivf":
+	case "ivf", "ivfalt":
 		iv, _ := NewIVFIndex(2, 2, Euclidean)
 		ts := vTrainSet(2, 0)
+		if c.Vec == "ivfalt" {
+			// the template of every session is trained by that session's process: the same
+			// sample in another order (k-means is positional: same clusters, other indices),
+			// or another sample. A segment carries its own training; whatever the template
+			// of the session that reads it was trained on must not matter.
+			switch vStoreSessionNo % 3 {
+			case 2:
+				ts = vDeepCopy(ts)
+				for i, j := 0, len(ts)-1; i < j; i, j = i+1, j-1 {
+					ts[i], ts[j] = ts[j], ts[i]
+				}
+			case 0:
+				ts = vTrainSet(2, 1)
+			}
+		}
 		nodes := make([]VectorNode, len(ts))
 		for i, v := range ts {
 			nodes[i] = *NewVectorNodeWithID(uint32(1000+i), vCopyVec(v))
@@ -252,6 +270,10 @@ func vStoreSearch(st *PersistentHybridIndex, q int) (map[uint32]float64, error) 
 	case 7:
 		// "return everything": the largest k there is
 		s = s.WithVector([]float32{1, 0}).WithK(math.MaxInt64)
+	case 8:
+		// DEFAULT probing (IVF templates only): the query IS a stored vector, so the lists the
+		// query probes first are the lists that vector was filed in - it must be found
+		s = st.NewSearch().WithK(10).WithVector([]float32{1, 0}).WithThreshold(0.05)
 	}
 	res, err := s.Execute()
 	if err != nil {
@@ -277,7 +299,7 @@ func vStoreMatches(d vDoc, q int, tmpl string) bool {
 		return tmpl == "vtm" && len(d.Vec) > 0 && d.Meta["s"] == "x"
 	case 5:
 		return tmpl == "vtm" && (vStoreMatches(d, 6, tmpl) || vStoreMatches(d, 1, tmpl))
-	case 6:
+	case 6, 8:
 		return len(d.Vec) == 2 && d.Vec[0] == 1 && d.Vec[1] == 0
 	case 7:
 		return len(d.Vec) > 0
